@@ -17,7 +17,7 @@ tvars == <<h, n, h2n, n2h, hsub, nsub, hUp, nUp, res, canc, tw, heldH, heldN, ti
 Tr == Traces[tid]
 
 TInit == /\ tid \in 1 .. Len(Traces) /\ l = 1
-         /\ h = HInit /\ n = NInit /\ h2n = <<>> /\ n2h = <<>>
+         /\ h \in {[HInit EXCEPT !.roll = b] : b \in BOOLEAN} /\ n = NInit /\ h2n = <<>> /\ n2h = <<>>
          /\ hsub = {} /\ nsub = {} /\ hUp = <<>> /\ nUp = <<>> /\ res = <<>> /\ canc = {} /\ tw = 0 /\ heldH = <<>> /\ heldN = <<>>
 
 Proj(s, K) == SelectSeq(s, LAMBDA o : o.o \in K)
@@ -90,6 +90,9 @@ TNext ==
           /\ UNCHANGED <<n, n2h, hsub, nsub, nUp, canc, heldH, heldN>>
        \/ /\ e.a = "ntick" /\ NTimerEnabled(n) /\ NcpApply(e, NTimerFn(n))
           /\ UNCHANGED <<h, h2n, hsub, nsub, hUp, res, canc, tw, heldH, heldN>>
+       \* the transport is set to raise out of the host's next DATA write
+       \/ /\ e.a = "harm" /\ ~h.wf /\ e.out = <<>> /\ h' = ArmFn(h)
+          /\ UNCHANGED <<n, h2n, n2h, hsub, nsub, hUp, nUp, res, canc, tw, heldH, heldN>>
        \/ /\ e.a = "hcancel" /\ e.out = <<>> /\ canc' = canc \cup {e.id}
           /\ UNCHANGED <<h, n, h2n, n2h, hsub, nsub, hUp, nUp, res, tw, heldH, heldN>>
        \/ /\ e.a = "end" /\ e.pending = <<>> /\ e.out = <<>> /\ h.cur.id = 0 /\ h.q = <<>>
